@@ -8,6 +8,17 @@ TB = ("Lean 4.33 kernel; axioms propext, Classical.choice, Quot.sound only (audi
       "Lean runtime executing nvdriver for the correspondence only.")
 
 CHECKS = {
+    "C08": dict(
+        text=("Lean 4 theorems for every array length and every 64-bit index: on each engine's range test an element is produced only for an "
+              "index in [0, len) and it is the element at that index, everything else stops (oob_stops); 2^32+k and negative indices are "
+              "rejected (no 32-bit narrowing); and for the VM handler itself - the same execData that the lock-step runs tie to vm.c - "
+              "OP_ARR_GET raises VM_ERR_OUT_OF_BOUNDS without output for an out-of-range index and pushes exactly es[idx] otherwise "
+              "(vm_arr_get). The native and interpreter range tests are one-line transcriptions; they are tied to the code by whole-program "
+              "runs. Check: NanoVM exhaustively over lengths x 19 boundary indices x get/set/remove/pop/tuple/struct/union field (model vs "
+              "implementation + oracle), native binaries and compile-time interpreter on generated programs."),
+        note=TB + " Partial: nativeAccess/interpAccess model only the range test of dyn_array.c / eval.c; abort() and exit(1) behaviour of the host is observed, not modelled.",
+        technique="Lean 4 proof (case analysis on exact int64 index arithmetic, handler-level theorem) + exhaustive boundary enumeration + differential correspondence",
+        design="6/C08"),
     "C10": dict(
         text=("Lean 4 theorems, unbounded: for the string pool, the function table and the import table (with parameter-type tables) the "
               "loader's section parser recovers exactly what the serialiser wrote, field by field, wherever the section sits in a file "
